@@ -127,6 +127,9 @@ func (iv *Value) ValueFrom(value any) {
 		}
 	case ItemTypeArray:
 		rt := reflect.TypeOf(value)
+		if rt == nil {
+			return
+		}
 		if rt.Kind() == reflect.Slice || rt.Kind() == reflect.Array {
 			data, err := json.Marshal(value)
 			if err != nil {
@@ -144,6 +147,9 @@ func (iv *Value) ValueFrom(value any) {
 		}
 	case ItemTypeObject:
 		rt := reflect.TypeOf(value)
+		if rt == nil {
+			return
+		}
 		if rt.Kind() == reflect.Pointer {
 			rt = rt.Elem()
 		}
